@@ -9,7 +9,13 @@ LINE = re.compile(r"^(?:\[pid\s+(\d+)\]\s+|(\d+)\s+)?(\w+)\((.*)\)\s+=\s+(-?\d+|
 
 def paths(store):
     d = store.dir
-    return [os.path.join(d, n) for n in ("lock", "plans.jsonl", "plans.jsonl.tmp", "events.jsonl", "events.jsonl.tmp")] + [d]
+    out = [os.path.join(d, n) for n in ("lock", "plans.jsonl", "plans.jsonl.tmp", "events.jsonl", "events.jsonl.tmp")] + [d]
+    for n in ("plans.jsonl", "events.jsonl"):
+        p = os.path.join(d, n)
+        if os.path.islink(p):          # a log kept elsewhere and linked in: whatever is done to the file it points to counts as done to the log
+            t = os.path.realpath(p)
+            out += [t, t + ".tmp"]
+    return out
 
 
 def _cmd(store, argv, extra, binary=None, calls=None):
